@@ -17,10 +17,12 @@ pub struct MemDevice {
     pub log: Vec<Call>,
     /// 0 = accept whole buffers; k > 0 = every write call accepts at most k bytes (a legal short-writing sink)
     pub max_write: usize,
+    /// keep the call log (on by default; the bulk encode wrappers switch it off)
+    pub quiet: bool,
 }
 impl MemDevice {
     pub fn new(initial: Vec<u8>, pos: u64) -> Self {
-        MemDevice { data: initial, pos, log: Vec::new(), max_write: 0 }
+        MemDevice { data: initial, pos, log: Vec::new(), max_write: 0, quiet: false }
     }
 }
 impl Write for MemDevice {
@@ -31,12 +33,16 @@ impl Write for MemDevice {
             self.data.resize(off + buf.len(), 0);
         }
         self.data[off..off + buf.len()].copy_from_slice(buf);
-        self.log.push(Call::Write { off: self.pos, len: buf.len() });
+        if !self.quiet {
+            self.log.push(Call::Write { off: self.pos, len: buf.len() });
+        }
         self.pos += buf.len() as u64;
         Ok(buf.len())
     }
     fn flush(&mut self) -> std::io::Result<()> {
-        self.log.push(Call::Flush);
+        if !self.quiet {
+            self.log.push(Call::Flush);
+        }
         Ok(())
     }
 }
@@ -45,7 +51,9 @@ impl Read for MemDevice {
         let off = (self.pos as usize).min(self.data.len());
         let n = buf.len().min(self.data.len() - off);
         buf[..n].copy_from_slice(&self.data[off..off + n]);
-        self.log.push(Call::Read { off: self.pos, len: n });
+        if !self.quiet {
+            self.log.push(Call::Read { off: self.pos, len: n });
+        }
         self.pos += n as u64;
         Ok(n)
     }
@@ -61,7 +69,9 @@ impl Seek for MemDevice {
             return Err(std::io::Error::new(std::io::ErrorKind::InvalidInput, "negative seek"));
         }
         self.pos = np as u64;
-        self.log.push(Call::Seek { to: self.pos });
+        if !self.quiet {
+            self.log.push(Call::Seek { to: self.pos });
+        }
         Ok(self.pos)
     }
 }
